@@ -39,3 +39,11 @@ Print Assumptions C16_ordering_is_a_similarity.
 (* transposition is an involution and keeps every entry *)
 Theorem C16_transpose_preserves_entries (F : fieldType) (m n : nat) (A : 'M[F]_(m,n)) i j : A^T j i = A i j /\ A^T^T = A.
 Proof. by split; [rewrite mxE | rewrite trmxK]. Qed.
+
+(* the envelope storage loses nothing: L D L' by successive Schur complements (Envelope::cholDec) creates no entry to the
+   left of the first non-zero of a row -- the strictly lower part of L vanishes outside the profile of A (CholProofs.v) *)
+From Gama Require Import CholProofs.
+Theorem C16_ldl_stays_in_the_envelope (F : fieldType) (n : nat) (f : nat -> nat) (A : 'M[F]_n.+1) :
+  in_profile f A -> forall i j : 'I_n.+1, (j < f i)%N -> (j < i)%N -> (ldl A).1 i j = 0.
+Proof. exact: ldl_L_in_envelope. Qed.
+Print Assumptions C16_ldl_stays_in_the_envelope.
